@@ -180,7 +180,6 @@ def trim (ns : List Node) : Path → Nat → List Node
     | some n =>
       if nodeEmpty ns n then trim (ns.filter (fun m => m.path != p)) p.dropLast fuel
       else ns
-termination_by _ fuel => fuel
 
 /-- the particle path `set(filter, d)`/`seek(filter, d)` address -/
 def pathFrom (ls : Path) (d : Nat) : Path :=
